@@ -16,6 +16,8 @@ check('C18',
       '>= / <= N with no prime factor above 7 (0 -> 0); proved by loop invariants directly on the generated loops, '
       'axiom-free. The tie to the code is regeneration on every run plus a differential run of model vs implementation '
       '(exhaustive range and around 7-smooth numbers below 2^62) and an independent-oracle monitor.',
+      'fast_len is tied by translation (T6): it is a plain time slice z[:prev_fast_len(len z)] of the signal itself with generated bounds '
+      '(C18_generated_crop), so the ledger theorems of C01 apply to it. '
       'Trusted: Coq kernel, translator T1 (Python ast subset -> Gallina over Z), Python int = Z, lru_cache transparent for '
       'pure functions. fast_len on signals: theorem C18_fast_len gives the prefix bound; signal construction/slicing is '
       'covered by C01 and checked here by execution.',
@@ -264,6 +266,9 @@ check('C08',
       'PARTIAL: time_at (Newton iteration) and the float64 evaluation error are decided by the correspondence run (model evaluated by '
       'vm_compute on the exact decimal numbers of generated polyco texts and the exact two-double times) and the monitor (tempo formula '
       'with fractions.Fraction: |phase - formula| <= 1e-8 cycles).',
+      'Span edges, one pass of the interval-merge loop, the membership test and dt of _get_index_and_dt, how __call__/f0/phasepol use the '
+      'selected entry and the coefficient updates / padding / line count of from_polyco are REGENERATED from pulsar/predictor.py by translator '
+      'T14 on every run (other statements pinned); C08_generated_* prove the model equal to them. '
       'Trusted: Coq kernel; astropy Time differences as exact rationals (TAI); float64 Horner error below 1e-8 inside the sampled envelope '
       'F0*span/2 <= 1e6 cycles; searchsorted on float MJD (times within 20 us of a span end excluded from the selection comparison).',
       'machine-checked proof in Coq (Q) + correspondence run (vm_compute) + exact-rational monitor',
